@@ -7,6 +7,7 @@ from ..report import AnalysisError
 from ..srcmodel import unparse, norm, walk_no_nested, calls_in, fold_const
 from .common import (is_method_call, recv_of, get_kw, node_obj, F3, fde_guard, cfg_of, facts_at, find_stmt_node)
 from . import mergerules as mr
+from . import unitrules
 from .common import thorough
 from . import mergetrace as mt
 from .tagtable import check_flag_tags, constructors
@@ -20,6 +21,7 @@ DECIDED = [
     'R3: flag semantics tables: implicit_allow_new of a child = explicit else inherited; ayns.allow_new = inherited else True; both _require_all_new implementations raise exactly when allow_new is false and the path is not excepted; the container one walks nodes_with_paths(prefix=path, include_self=...).',
     'R5: process_cmdline restores consecutive list indices (read right-to-left) to their written order.',
     'R4: process_cmdline defaults to a tag whose constructor sets allow_new=False and build_from_cmdline does not override it; !new/!notnew constructors set exactly allow_new.',
+    'R6: ComposedNode.ayns._require_all_new evaluated on 36 rows (own / child allow_new x include_self default / True / False x exceptions): the node itself is checked by default; any checked node that forbids new paths raises unless excepted.',
 ]
 UNDECIDED = ['the a.b[i].c=value text grammar;', '"nothing else changes" as data.']
 
@@ -256,11 +258,13 @@ def check(repo, run, tier):
     g(mr.propagation_table, repo, run, 'C08.R3', 'allow_new')
     g(r4, repo, run)
     g(r5, repo, run)
+    g(unitrules.require_all_new_table, repo, run, 'C08.R6')
     g.done()
 
 
 def mutants(repo):
     return [
+        Mutant('require-all-new-skips-self-by-default', lambda r: in_func(r, 'ComposedNode.ayns._require_all_new', "exceptions=None, include_self=True):", "exceptions=None, include_self=False):"), ['C08.R6']),
         Mutant('new-key-check-dropped', lambda r: delete_stmt(r, 'ComposedNode.ayns.on_merge_impl', lambda t: t.startswith('value.ayns._require_all_new')), ['C08.R1']),
         Mutant('leaf-replacement-check-dropped', lambda r: delete_stmt(r, 'ComposedNode.ayns.on_merge_impl', lambda t: t.startswith('possibly_new_child.ayns._require_all_new')), ['C08.R1']),
         Mutant('replacement-check-dropped', lambda r: delete_stmt(r, 'ComposedNode.ayns.on_merge_impl', lambda t: t.startswith('other.ayns._require_all_new')), ['C08.R1']),
